@@ -208,7 +208,10 @@ def xmatch(
     return res[0]
 
 
-_vect_get_type_id = np.vectorize(_get_type_id, otypes=[int])
+def _vect_get_type_id(values):
+    # Not a module-level `np.vectorize`: that caches, at its first call, a
+    # ufunc that cannot be pickled, after which no model can be serialised.
+    return np.vectorize(_get_type_id, otypes=[int])(values)
 
 
 def args_parser_match_array(val, arr, match_type=1):
